@@ -134,13 +134,28 @@ def main(tier, seed):
         'C12', dec, lenient, [('corr', 'prov_corr', 'stat'), ('spec', 'c05_spec'), ('rest', 'ends_at_rest')], size=50,
         runner=runner, prefix='Lenient')
     broken += broken2
-    cases = modelled + lenient
-    results = res1 + res2
+    # the peer RESETS the connection while the provider still has something to send (its A-ABORT in answer to an
+    # unrecognised PDU, the local user's abort / release / data): the kernel refuses the write.  The model has no
+    # failing writes, so only the property's oracle applies: the loop survives, the user is told, all is closed
+    junk = b'\xff\x00\x00\x00\x00\x04junk'
+    resets = []
+    for plabel, acceptor, pre in prefixes():
+        resets.append(dict(label=[plabel, 'junk-then-reset'], acceptor=acceptor, lenient=True, fail_sends=True,
+                           ops=list(pre) + [('segreset', junk)] + [('idle',)] * 4))
+        resets.append(dict(label=[plabel, 'data-then-reset'], acceptor=acceptor, lenient=True, fail_sends=True,
+                           ops=list(pre) + [('segreset', b'\x04\x00\x00\x00\x00\x0a\x00\x00\x00\x06\x01\x07abcd')] + [('idle',)] * 4))
+    _rn, res3, f3, broken3, _r = pd.run_cases(
+        'C12', dec, resets, [('corr', 'prov_corr', 'stat'), ('spec', 'c05_spec', 'stat'), ('rest', 'ends_at_rest')], size=50,
+        runner=runner, prefix='Reset')
+    broken += broken3
+    cases = modelled + lenient + resets
+    results = res1 + res2 + res3
     off = len(modelled)
-    failing = dict((k, f1[k] + [off + i for i in f2[k]]) for k in f1)
+    off3 = off + len(lenient)
+    failing = dict((k, f1[k] + [off + i for i in f2[k]] + ([off3 + i for i in f3[k]] if k == 'rest' else [])) for k in f1)
     cov = dec.coverage
     cov['evaluations'] = len(cases)
-    cov['distinct_nontrivial'] = len(set((c['label'][0], pd.short_ops(c['ops'])[-8]) for c in cases))
+    cov['distinct_nontrivial'] = len(set((c['label'][0], tuple(pd.short_ops(c['ops'])[-8:-7])) for c in cases))
     cov['rule'] = ('8 protocol states (Sta2, 3, 5, 6 both roles, 7, 8, 13) x structure-aware mutations of 9 valid PDU '
                    'streams (truncation with/without fixed lengths, PDU/item/sub-item/PDV lengths 0/short/long/2^32-1, '
                    'zero/unknown types, non-ASCII text, control header, context id, command-set damage, bit flips) and '
